@@ -385,6 +385,28 @@ func (in *wasmInst) invoke(fidx uint32, args []*sym.Term) []*sym.Term {
 			push(in.globals[i.A])
 		case op == 0x24:
 			in.globals[i.A] = pop()
+		case op == 0x25 || op == 0x26:
+			// table.get / table.set on table 0; a funcref on the stack is the constant function index (all ones = null)
+			var ref *sym.Term
+			if op == 0x26 {
+				ref = pop()
+			}
+			idx := pop()
+			if !idx.IsConst() && !m.path.Branch(c.Ult(idx, k32(uint64(len(in.table))))) {
+				in.trap("out of bounds table access")
+			}
+			k := m.path.Concretize(idx, "table index")
+			if i.A != 0 || k >= uint64(len(in.table)) {
+				in.trap("out of bounds table access")
+			}
+			if op == 0x25 {
+				push(c.Const(64, uint64(in.table[k])))
+			} else {
+				if !ref.IsConst() {
+					m.path.abort("unsupported", "symbolic funcref")
+				}
+				in.table[k] = int64(ref.Val)
+			}
 		case op >= 0x28 && op <= 0x35:
 			base := pop()
 			var n, w int
